@@ -491,6 +491,41 @@ def run_selftest(prop, seed):
     return ok, results
 
 
+def run_benign(prop, seed):
+    """Apply each registered harmless edit to a scratch copy of /repo and require that no violation is reported
+    (exit 0; exit 2 only for a legitimately lost anchor). A violation here is a false alarm of the machinery."""
+    reg = load_registry(prop)
+    results = []
+    ok = True
+    for mu in getattr(reg, "BENIGN", []):
+        mdir = os.path.join(SCRATCH_ROOT, prop + "-benign-src")
+        shutil.rmtree(mdir, ignore_errors=True)
+        os.makedirs(mdir)
+        try:
+            sh(["rsync", "-a", "--exclude", "/target", "--exclude", ".git", vf.REPO.rstrip("/") + "/", mdir + "/"], timeout=300)
+            p = os.path.join(mdir, mu["file"])
+            s = open(p).read()
+            if s.count(mu["from"]) < 1:
+                results.append({"edit": mu["name"], "status": "skipped", "why": "pattern no longer present"})
+                continue
+            open(p, "w").write(s.replace(mu["from"], mu["to"], 1))
+            run = Run(prop, "quick", seed, repo=mdir, quiet=True, tag=prop + "-benign")
+            run.no_cex = True
+            run.run_all()
+            for (o, path, _) in run.violations:
+                try:
+                    os.remove(path)
+                except OSError:
+                    pass
+            st = "false-alarm" if run.violations else ("undecided" if run.undecided else "quiet")
+            results.append({"edit": mu["name"], "status": st, "failed": [o.name for (o, _, _) in run.violations], "undecided": [u[:200] for u in run.undecided[:4]]})
+            if run.violations:
+                ok = False
+        finally:
+            shutil.rmtree(mdir, ignore_errors=True)
+    return ok, results
+
+
 def restrict_registry(reg, ob_names):
     class R:
         pass
@@ -568,6 +603,7 @@ def main(argv):
     ap.add_argument("--tier", default=os.environ.get("VERIF_TIER", "quick"), choices=["quick", "thorough"])
     ap.add_argument("--replay")
     ap.add_argument("--selftest", action="store_true")
+    ap.add_argument("--benign", action="store_true", help="apply the registered harmless edits; none may raise a violation")
     ap.add_argument("--only", help="comma-separated obligation names (debugging; evidence is still written)")
     a = ap.parse_args(argv)
     seed = int(os.environ.get("VERIF_SEED", "0") or 0)
@@ -575,6 +611,10 @@ def main(argv):
     try:
         if a.replay:
             return replay(a.prop, a.replay)
+        if a.benign:
+            ok, res = run_benign(a.prop, seed)
+            log(json.dumps(res, indent=1))
+            return 0 if ok else 1
         if a.selftest:
             ok, res = run_selftest(a.prop, seed)
             log(json.dumps(res, indent=1))
